@@ -21,16 +21,17 @@ type FaultSpec struct {
 }
 
 type SchedSpec struct {
-	K        int     `json:"k"`                   // number of pre-emption points aimed at (0 = none)
-	Exact    bool    `json:"exact"`               // PCT-style exact placement (else geometric gaps)
-	HotBias  bool    `json:"hot_bias"`            // postpone a pre-emption to the next hot site
-	HotOnly  int     `json:"hot_only,omitempty"`  // >0: pre-empt only at hot sites, each visit with this probability (percent)
-	Stall    int     `json:"stall"`               // task id starved after its first pre-emption, -1 none
-	StallFor int     `json:"stall_for"`           // number of scheduling decisions
-	StallSet []int   `json:"stall_set,omitempty"` // further tasks starved the same way (many-task runs)
-	LowPrio  int     `json:"low_prio"`            // task id only run when nothing else can, -1 none
-	MeanGap  int64   `json:"mean_gap,omitempty"`
-	Points   []int64 `json:"points,omitempty"` // the exact global yield indices drawn (informational; replay uses the schedule)
+	K         int     `json:"k"`                    // number of pre-emption points aimed at (0 = none)
+	Exact     bool    `json:"exact"`                // PCT-style exact placement (else geometric gaps)
+	HotBias   bool    `json:"hot_bias"`             // postpone a pre-emption to the next hot site
+	HotOnly   int     `json:"hot_only,omitempty"`   // >0: pre-empt only at hot sites, each visit with this probability (percent)
+	Stall     int     `json:"stall"`                // task id starved after its first pre-emption, -1 none
+	StallFor  int     `json:"stall_for"`            // number of scheduling decisions
+	StallSet  []int   `json:"stall_set,omitempty"`  // further tasks starved the same way (many-task runs)
+	StallSkip int     `json:"stall_skip,omitempty"` // the starved task is frozen at its (n+1)-th pre-emption, not at its first
+	LowPrio   int     `json:"low_prio"`             // task id only run when nothing else can, -1 none
+	MeanGap   int64   `json:"mean_gap,omitempty"`
+	Points    []int64 `json:"points,omitempty"` // the exact global yield indices drawn (informational; replay uses the schedule)
 }
 
 type Violation struct {
@@ -129,8 +130,8 @@ type Tier struct {
 }
 
 var Tiers = map[string]Tier{
-	"quick":    {Name: "quick", GroupRounds: 8, Warm: map[string]int{"sec": 2, "fn": 1, "encode": 1, "decode": 1, "roundtrip": 1, "hist": 1, "accessors": 1, "hot": 1}, WarmMax: 5000, WarmYields: 1200000, HotRounds: 6, Many: map[string]int{"sec": 4, "roundtrip": 1, "hist": 1}, PairRounds: 1, Extra: map[string]int{"sec": 12, "roundtrip": 8, "hist": 4, "fn": 4, "chain": 2}, Rounds: 1, Reps: 6, MaxTasks: 8, Faults: true, ChunkSize: 1, NShared: 24, NRecycle: 24},
-	"thorough": {Name: "thorough", GroupRounds: 64, Warm: map[string]int{"*": 1, "sec": 8, "fn": 2, "roundtrip": 2, "hot": 4}, WarmMax: 12000, WarmYields: 3000000, HotRounds: 24, Many: map[string]int{"sec": 12, "roundtrip": 4, "hist": 2, "fn": 1, "accessors": 1}, PairRounds: 6, Extra: map[string]int{"sec": 120, "roundtrip": 40, "hist": 20, "fn": 8, "accessors": 4, "chain": 8}, Rounds: 4, Reps: 8, MaxTasks: 64, Faults: true, ChunkSize: 1, NShared: 96, NRecycle: 96},
+	"quick":    {Name: "quick", GroupRounds: 8, Warm: map[string]int{"sec": 12, "fn": 1, "encode": 1, "decode": 1, "roundtrip": 1, "hist": 1, "accessors": 1, "hot": 3}, WarmMax: 5000, WarmYields: 1200000, HotRounds: 6, Many: map[string]int{"sec": 4, "roundtrip": 1, "hist": 1}, PairRounds: 1, Extra: map[string]int{"sec": 12, "roundtrip": 8, "hist": 4, "fn": 4, "chain": 2}, Rounds: 1, Reps: 6, MaxTasks: 8, Faults: true, ChunkSize: 1, NShared: 24, NRecycle: 24},
+	"thorough": {Name: "thorough", GroupRounds: 64, Warm: map[string]int{"*": 1, "sec": 40, "fn": 2, "roundtrip": 2, "hot": 8}, WarmMax: 12000, WarmYields: 3000000, HotRounds: 24, Many: map[string]int{"sec": 12, "roundtrip": 4, "hist": 2, "fn": 1, "accessors": 1}, PairRounds: 6, Extra: map[string]int{"sec": 120, "roundtrip": 40, "hist": 20, "fn": 8, "accessors": 4, "chain": 8}, Rounds: 4, Reps: 8, MaxTasks: 64, Faults: true, ChunkSize: 1, NShared: 96, NRecycle: 96},
 }
 
 // NumFocused is the number of focused runs of a tier (they come first).
@@ -415,6 +416,8 @@ func PlanRun(seed, index uint64, tierName string) *Plan {
 	p := &Plan{Property: "C19", Seed: seed, Index: index, RunSeed: rs, Tier: tierName, Pick: -1}
 	p.Sched.Stall, p.Sched.LowPrio = -1, -1
 	pile, pileCost := false, 0
+	victimRun := false
+	warmEst := int64(0) // long-lived-caller runs: estimated yields of the whole run
 	fl := focusList(t)
 	nPriv := len(fl)
 	switch {
@@ -468,7 +471,7 @@ func PlanRun(seed, index uint64, tierName string) *Plan {
 		// cheap operations are repeated more often: about 1500 yields per task, at
 		// least Reps and at most 10 x Reps calls (costs come from the probe step)
 		reps := t.Reps
-		warmN, coolRun := 0, false
+		warmN, coolRun, victim, victimSame := 0, false, false, false
 		if warm {
 			// WarmYields yields of discarded repetitions per task (every repetition has a yield
 			// budget of one operation), at most WarmMax calls
@@ -487,7 +490,22 @@ func PlanRun(seed, index uint64, tierName string) *Plan {
 				warmN = warmN/4 + r.Intn(warmN/2+1) // not always the same number of calls
 			}
 			coolRun = r.Chance(45)
-			if !coolRun && r.Chance(40) {
+			reps = 12
+			warmEst = int64(ntask) * int64(warmN) * int64(cost+1)
+			if r.Chance(40) {
+				// victim run: task 0 is a short-lived caller - recorded calls only - that is
+				// frozen in the middle of one of its first calls, at one of the first hot
+				// sites it is pre-empted at, until all the others (long-lived callers) have
+				// made their thousands of calls. Whatever it has looked up, been handed or is
+				// half-way through using is recycled under it: a ring that has gone round, a
+				// cache slot evicted and refilled, an arena chunk switched.
+				victim, coolRun, victimRun = true, false, true
+				if ntask < 3 {
+					ntask = 3
+				}
+				p.Sched.Stall, p.Sched.StallFor, p.Sched.StallSkip = 0, 1<<20, r.Intn(40)
+				victimSame = r.Chance(70)
+			} else if !coolRun && r.Chance(40) {
 				// the warm-up happens before the tasks exist (one caller started the process,
 				// the others join a library that is already warm)
 				p.PreWarm = &OpSpec{Fam: chunk[0].Fam, Name: chunk[0].Name, Seed: r.U64(), Warm: warmN * ntask}
@@ -543,7 +561,7 @@ func PlanRun(seed, index uint64, tierName string) *Plan {
 		}
 		for task := 0; task < ntask; task++ {
 			var ops []OpSpec
-			for rep := 0; rep < reps; rep++ {
+			for rep := 0; rep < reps || (victim && task == 0 && rep < 2*reps); rep++ {
 				for i := range chunk {
 					e := chunk[i]
 					if task == 2 {
@@ -553,11 +571,21 @@ func PlanRun(seed, index uint64, tierName string) *Plan {
 						e = chunk[(i+task)%len(chunk)] // every task starts with a different kind of call
 					}
 					e = sd.apply(e)
-					if rep == 0 && i == 0 {
+					if victim && task == 0 && victimSame {
+						// the victim works with ONE value throughout (one security context, one
+						// PLMN): after its first call every further one takes the "already known"
+						// path, which is where a looked-up slot can go stale under it
+						e.Seed, e.Var = sd.pool[0], 0
+					}
+					if warmN > 0 && !(victim && task == 0) {
+						// the discarded calls are spread over the caller's life: every recorded
+						// call has its stretch of them (before it, or after it while the caller
+						// keeps the result), so recorded calls happen at every age of the process
+						n := warmN/(reps*len(chunk)) + 1
 						if coolRun {
-							e.Cool = warmN // keeps its first result while it makes the other calls
+							e.Cool = n
 						} else {
-							e.Warm = warmN
+							e.Warm = n
 						}
 					}
 					ops = append(ops, e)
@@ -638,6 +666,22 @@ func PlanRun(seed, index uint64, tierName string) *Plan {
 	}
 	if len(p.Tasks) > 2 && r.Chance(10) {
 		p.Sched.LowPrio = r.Intn(len(p.Tasks))
+	}
+	if warmEst > 0 {
+		// A cold-first run does not know its length and draws gaps of 2..120 yields: in a
+		// run of millions of yields the allowance of 4 000 switches is then gone after the
+		// first few per cent, and the rest of the run is sequential. Long-lived-caller
+		// runs know roughly how long they are: K pre-emptions over the whole of it.
+		k := []int64{20, 50, 50, 200, 500, 2000}[r.Intn(6)]
+		p.Sched.K, p.Sched.Exact = int(k), false
+		p.Sched.MeanGap = warmEst/(k+1) + 1
+	}
+	if victimRun {
+		// the freeze should land on a statement that touches shared state
+		p.Sched.LowPrio = -1
+		if r.Chance(75) {
+			p.Sched.HotOnly = 70
+		}
 	}
 	if pile {
 		p.Sched.K, p.Sched.Exact, p.Sched.HotBias, p.Sched.HotOnly, p.Sched.LowPrio = 50, false, false, 0, -1
@@ -1120,7 +1164,7 @@ func ColdOrderRun(p *Plan, reverse bool) *Record {
 // pre-emption by geometric gaps and fault positions from fixed ranges.
 func (x *execution) simulate(totals []int64, total int64) bool {
 	p, rec := x.p, x.rec
-	cfg := &vsimrt.Config{Seed: p.RunSeed, StallTask: int32(p.Sched.Stall), StallFor: p.Sched.StallFor, StallSet: stallSet(p.Sched.StallSet), LowPrio: int32(p.Sched.LowPrio),
+	cfg := &vsimrt.Config{Seed: p.RunSeed, StallTask: int32(p.Sched.Stall), StallFor: p.Sched.StallFor, StallSet: stallSet(p.Sched.StallSet), StallSkip: p.Sched.StallSkip, LowPrio: int32(p.Sched.LowPrio),
 		SiteFlags: siteFlags, NumSites: len(SiteTab)}
 	cfg.Free = p.Free || FreeMode
 	r := NewRng(Mix(p.RunSeed, 0x5c4ed))
